@@ -234,20 +234,52 @@ def naming_rule(prog: Program, rep, RID: str):
         rep.ok(RID, key, "a node without the attribute has its expanded edge appended to the ignore list", f.loc())
     else:
         rep.violation(RID, key, "nodes lacking the flow attribute are not added to the ignore list (exactly in the else-branch of the attribute test)", f.loc())
-    # reader
-    f = prog.own_method(cname, "get_condensed_paths")
-    src = norm(f.node)
-    rd = [
-        ("reader-step", r"for (\w+) in range\(0, len\(path\) - 1, 2\)", "every second node starting at index 0"),
-        ("reader-suffix-test", r"path\[\w+\]\[-2:\] != '\.0'", "entry suffix test with len('.0') == 2"),
-        ("reader-strip", r"node = path\[\w+\]\[:-2\]", "suffix stripped with its own length"),
-    ]
-    for k, pat, what in rd:
-        key = f"{cname}.get_condensed_paths:{k}"
-        if re.search(pat, src):
-            rep.ok(RID, key, what, f.loc())
+    # reader: decoded structurally (names are free); shapes outside the recognised idiom are analysis errors, not violations
+    reader_rule(prog, rep, RID, cname)
+    # the translators are total: no element of the user's list is dropped on a non-raising path
+    from rules.common import append_counts
+    for m, per_iter, what in (("_get_expanded_subpath_constraints_nodes", {1}, "one expanded edge per constraint node"),
+                              ("_get_expanded_subpath_constraints_edges", {2, 3}, "the tail node-edge and the edge itself for every constraint edge (plus the head for the last)")):
+        f = prog.own_method(cname, m)
+        all_for = [n for n in walk_no_nested(f.node) if isinstance(n, ast.For)]
+        outer = [n for n in all_for if not any(o is not n and any(x is n for x in ast.walk(o)) for o in all_for)]
+        key = f"{cname}.{m}:total"
+        bad = []
+        n_loops = 0
+        for lp in outer:
+            for acc_loop in [lp] + [n for n in ast.walk(lp) if isinstance(n, ast.For) and n is not lp]:
+                accs = {dotted(c.func.value) for c in calls_in(acc_loop) if isinstance(c.func, ast.Attribute) and c.func.attr == "append" and
+                        isinstance(c.func.value, ast.Name)}
+                own = {a for a in accs if any(isinstance(s, ast.Expr) and isinstance(s.value, ast.Call) and isinstance(s.value.func, ast.Attribute) and
+                                              s.value.func.attr == "append" and dotted(s.value.func.value) == a
+                                              for s in ast.walk(acc_loop) if isinstance(s, ast.stmt) and
+                                              not any(isinstance(p, ast.For) and p is not acc_loop and s in list(ast.walk(p)) for p in ast.walk(acc_loop) if p is not acc_loop))}
+                for a in sorted(own):
+                    prof = append_counts(acc_loop.body, a)
+                    n_loops += 1
+                    want = per_iter if acc_loop is not lp else {1}
+                    for cnt, kind in sorted(prof):
+                        if kind != "fall" or cnt not in want:
+                            bad.append((acc_loop, a, cnt, kind))
+        if n_loops < 2:
+            raise AnalysisError(f"{cname}.{m}: accumulator loops of the translator not recognised")
+        if bad:
+            lp, a, cnt, kind = bad[0]
+            rep.violation(RID, key, f"a non-raising path through the loop over `{norm(lp.iter)}` leaves by `{kind}` after {cnt} append(s) to `{a}` "
+                          f"(expected {what}): elements of the user's constraint are silently dropped, so the model solves a weaker problem", f.loc(lp))
         else:
-            rep.violation(RID, key, f"reader no longer decodes the writer's scheme: {what}", f.loc())
+            rep.ok(RID, key, f"every non-raising iteration appends {what}; no continue/break/filter", f.loc(), sample={"loops": n_loops})
+    for m in ("get_expanded_additional_starts", "get_expanded_additional_ends"):
+        f = prog.own_method(cname, m)
+        key = f"{cname}.{m}:total"
+        comps = [n for r in walk_no_nested(f.node) if isinstance(r, ast.Return) and r.value is not None for n in ast.walk(r.value) if isinstance(n, ast.ListComp)]
+        params = [a.arg for a in f.node.args.args[1:]]
+        if len(comps) == 1 and len(comps[0].generators) == 1 and not comps[0].generators[0].ifs and norm(comps[0].generators[0].iter) in params:
+            rep.ok(RID, key, "unfiltered comprehension over the whole user list", f.loc())
+        elif len(comps) == 1 and (comps[0].generators[0].ifs or len(comps[0].generators) != 1):
+            rep.violation(RID, key, f"the translation `{norm(comps[0])}` filters the user's nodes: some declared starts/ends silently do not reach the model", f.loc(comps[0]))
+        else:
+            raise AnalysisError(f"{cname}.{m}: return value is not one comprehension over the parameter")
     # last edge of an edge-list constraint gets its head node
     f = prog.own_method(cname, "_get_expanded_subpath_constraints_edges")
     found = False
@@ -286,6 +318,136 @@ def naming_rule(prog: Program, rep, RID: str):
                         rep.violation(RID, key, "the head node is appended for inner edges as well", f.loc(c))
     if not found:
         rep.violation(RID, f"{cname}._get_expanded_subpath_constraints_edges:last-head", "the head node of the last edge is never appended", f.loc())
+
+
+def _int_const(e) -> Optional[int]:
+    if isinstance(e, ast.Constant) and isinstance(e.value, int) and not isinstance(e.value, bool):
+        return e.value
+    if isinstance(e, ast.UnaryOp) and isinstance(e.op, ast.USub) and isinstance(e.operand, ast.Constant) and isinstance(e.operand.value, int):
+        return -e.operand.value
+    return None
+
+
+def reader_rule(prog: Program, rep, RID: str, cname: str):
+    """get_condensed_paths inverts the writer's scheme [v.0, v.1, w.0, w.1, ...] -> [v, w, ...]: it visits every second entry starting
+    at 0, strips exactly len('.0') characters, and drops a visited node only if it is the global source / sink."""
+    from rules.common import local_single_defs, substitute_locals
+    f = prog.own_method(cname, "get_condensed_paths")
+    params = [a.arg for a in f.node.args.args[1:]]
+    all_for = [n for n in walk_no_nested(f.node) if isinstance(n, ast.For)]
+    outer = [n for n in all_for if isinstance(n.target, ast.Name) and norm(n.iter) in params]
+    if len(outer) != 1:
+        raise AnalysisError(f"{cname}.get_condensed_paths: loop over the paths parameter not found")
+    P = outer[0].target.id
+    inner = [n for n in ast.walk(outer[0]) if isinstance(n, ast.For) and n is not outer[0]]
+    if len(inner) != 1:
+        raise AnalysisError(f"{cname}.get_condensed_paths: expected one loop over the entries of a path, found {len(inner)}")
+    lp = inner[0]
+    defs = {k: v for k, v in local_single_defs(f.node).items()}
+    for n in ast.walk(lp):
+        if isinstance(n, ast.Assign) and len(n.targets) == 1 and isinstance(n.targets[0], ast.Name):
+            nm = n.targets[0].id
+            if sum(1 for m in ast.walk(f.node) if isinstance(m, (ast.Assign, ast.AugAssign)) and any(isinstance(x, ast.Name) and x.id == nm and isinstance(x.ctx, ast.Store) for x in ast.walk(m))) == 1:
+                defs[nm] = n.value
+    unrecognised = []
+    nviol = 0
+    # 1. index set
+    key = f"{cname}.get_condensed_paths:reader-step"
+    it = lp.iter
+    if isinstance(it, ast.Call) and dotted(it.func) == "range" and isinstance(lp.target, ast.Name) and 1 <= len(it.args) <= 3:
+        I = lp.target.id
+        args = it.args
+        start, stop, step = (ast.Constant(0), args[0], ast.Constant(1)) if len(args) == 1 else (args[0], args[1], args[2] if len(args) == 3 else ast.Constant(1))
+        s0, st = _int_const(start), _int_const(step)
+        stop_ok = norm(stop) in (f"len({P}) - 1", f"len({P})")
+        if s0 == 0 and st == 2 and stop_ok:
+            rep.ok(RID, key, "every second entry starting at index 0 (the '.0' entries)", f.loc(lp), sample={"iter": norm(it)})
+        elif s0 is not None and st is not None and (s0 != 0 or st != 2):
+            nviol += 1
+            rep.violation(RID, key, f"reader no longer decodes the writer's scheme: `{norm(it)}` does not visit exactly the entries 0, 2, 4, ... "
+                          "(every second node starting at index 0)", f.loc(lp))
+        elif s0 == 0 and st == 2 and _int_const(stop) is None and re.fullmatch(r"len\(%s\) - \d+" % re.escape(P), norm(stop)):
+            nviol += 1
+            rep.violation(RID, key, f"reader stops at `{norm(stop)}`: the last node(s) of every path are lost", f.loc(lp))
+        else:
+            unrecognised.append(f"index range `{norm(it)}`")
+        elem = f"{P}[{I}]"
+    else:
+        I = None
+        elem = None
+        if isinstance(it, ast.Call) and dotted(it.func) == "enumerate" and it.args and norm(it.args[0]) == P or norm(it) == P:
+            # visiting every entry needs a parity / suffix selection on the append; decided under the drop rule below
+            tgt = lp.target.elts[1] if isinstance(lp.target, ast.Tuple) else lp.target
+            elem = norm(tgt)
+            apps0 = [c for c in calls_in(lp) if isinstance(c.func, ast.Attribute) and c.func.attr == "append"]
+            sel = [norm(t) for c in apps0 for t, _ in enclosing_tests(lp, c)]
+            if any(re.search(r"% 2|'\.[01]'", t) for t in sel):
+                raise AnalysisError(f"{cname}.get_condensed_paths: reader visits every entry and selects by `{sel}` - idiom not recognised; "
+                                    "extend rules/c11.py reader_rule after reading the new code")
+            nviol += 1
+            rep.violation(RID, key, f"reader no longer decodes the writer's scheme: `{norm(it)}` visits every entry, not every second node starting at index 0 "
+                          "(both 'v.0' and 'v.1' decode to v)", f.loc(lp))
+        else:
+            unrecognised.append(f"entry loop `{norm(it)}`")
+    # 2. appended value and its guards
+    apps = [c for c in calls_in(lp) if isinstance(c.func, ast.Attribute) and c.func.attr == "append"]
+    if len(apps) != 1 or not apps[0].args:
+        raise AnalysisError(f"{cname}.get_condensed_paths: expected one append per visited entry, found {len(apps)}")
+    app = apps[0]
+    val = substitute_locals(app.args[0], defs)
+    key = f"{cname}.get_condensed_paths:reader-strip"
+    N = None
+    if isinstance(val, ast.Subscript) and isinstance(val.slice, ast.Slice) and val.slice.lower is None and val.slice.step is None and \
+            _int_const(val.slice.upper) is not None and (elem is None or norm(substitute_locals(val.value, defs)) == elem or norm(val.value) == elem):
+        N = -_int_const(val.slice.upper)
+        if N == len(".0"):
+            rep.ok(RID, key, "suffix stripped with its own length (len('.0') == 2)", f.loc(app), sample={"value": norm(val)})
+        else:
+            nviol += 1
+            rep.violation(RID, key, f"reader no longer decodes the writer's scheme: `{norm(val)}` strips {N} character(s), the suffix '.0' has 2", f.loc(app))
+    else:
+        unrecognised.append(f"appended value `{norm(val)}`")
+    key = f"{cname}.get_condensed_paths:reader-suffix-test"
+    sfx = []
+    for cmp_ in [n for n in ast.walk(lp) if isinstance(n, ast.Compare) and len(n.ops) == 1 and isinstance(n.ops[0], (ast.NotEq, ast.Eq))]:
+        l = substitute_locals(cmp_.left, defs)
+        r = cmp_.comparators[0]
+        if isinstance(l, ast.Subscript) and isinstance(l.slice, ast.Slice) and l.slice.upper is None and _int_const(l.slice.lower) is not None and \
+                isinstance(r, ast.Constant) and isinstance(r.value, str):
+            sfx.append((cmp_, -_int_const(l.slice.lower), r.value))
+    if not sfx:
+        rep.ok(RID, key, "no suffix validation in the reader (not needed for decoding)", f.loc(lp), nontrivial=False)
+    for cmp_, n_, const in sfx:
+        if n_ == len(const) and const == ".0":
+            rep.ok(RID, key, "entry suffix test compares the last len('.0') == 2 characters with '.0'", f.loc(cmp_))
+        else:
+            nviol += 1
+            rep.violation(RID, key, f"reader no longer decodes the writer's scheme: `{norm(cmp_)}` (entry suffix test with len('.0') == 2 against '.0')", f.loc(cmp_))
+    key = f"{cname}.get_condensed_paths:reader-drop"
+    acc = norm(app.func.value)
+    bad = []
+    for t, pol in enclosing_tests(lp, app):
+        ts = norm(substitute_locals(t, defs))
+        vs = norm(val)
+        m = re.fullmatch(r"%s not in [\[\(\{](self\.global_source_id, self\.global_sink_id|self\.global_sink_id, self\.global_source_id),?[\]\)\}]" % re.escape(vs), ts)
+        if not (m and pol):
+            bad.append((t, pol))
+    prof = None
+    from rules.common import append_counts
+    prof = append_counts(lp.body, acc)
+    leaves = sorted(k for c, k in prof if k != "fall")
+    if bad:
+        nviol += 1
+        t, pol = bad[0]
+        rep.violation(RID, key, f"a visited node is appended only if `{norm(t)}` is {pol}: nodes other than the global source / sink can be dropped from a "
+                      "returned path (e.g. the second visit of a self-loop node)", f.loc(app))
+    elif leaves:
+        nviol += 1
+        rep.violation(RID, key, f"an iteration can leave by `{leaves[0]}` without appending the visited node", f.loc(lp))
+    else:
+        rep.ok(RID, key, "every visited node is appended unless it is the global source / sink; no continue/break", f.loc(app))
+    if unrecognised and not nviol:
+        raise AnalysisError(f"{cname}.get_condensed_paths: reader idiom not recognised ({'; '.join(unrecognised)}); extend rules/c11.py reader_rule after reading the new code")
 
 
 def operand_types(prog: Program, rep, RID: str):
